@@ -53,38 +53,94 @@ package collection
 
 // ---------------------------------------------------------------- class accessors and class interfaces
 
-//@ assume func Array
+//@ global arrayClass guarded_by arrayMutex
+//@ func Array
+//@   props C19
+//@   syncwrites
 //@   nilok
 //@   nopanic
+//@   assumes !held(addrof(arrayMutex))
+//@   modifies held(addrof(arrayMutex)), mapof(global(arrayClass))
 //@   ensures result != nil
-//@ assume func List
+//@   checks[C19] !held(addrof(arrayMutex))
+//@   checks[C19] get(global(arrayClass), local(name)) == result && (result == old(get(global(arrayClass), local(name))) || fresh(result))
+//@ global listClass guarded_by listMutex
+//@ func List
+//@   props C19
+//@   syncwrites
 //@   nilok
 //@   nopanic
+//@   assumes !held(addrof(listMutex))
+//@   modifies held(addrof(listMutex)), mapof(global(listClass))
 //@   ensures result != nil
-//@ assume func Set
+//@   checks[C19] !held(addrof(listMutex))
+//@   checks[C19] get(global(listClass), local(name)) == result && (result == old(get(global(listClass), local(name))) || fresh(result))
+//@ global setClass guarded_by setMutex
+//@ func Set
+//@   props C19
+//@   syncwrites
 //@   nilok
 //@   nopanic
+//@   assumes !held(addrof(setMutex))
+//@   modifies held(addrof(setMutex)), mapof(global(setClass))
 //@   ensures result != nil
-//@ assume func Stack
+//@   checks[C19] !held(addrof(setMutex))
+//@   checks[C19] get(global(setClass), local(name)) == result && (result == old(get(global(setClass), local(name))) || fresh(result))
+//@ global stackClass guarded_by stackMutex
+//@ func Stack
+//@   props C19
+//@   syncwrites
 //@   nilok
 //@   nopanic
+//@   assumes !held(addrof(stackMutex))
+//@   modifies held(addrof(stackMutex)), mapof(global(stackClass))
 //@   ensures result != nil
-//@ assume func Queue
+//@   checks[C19] !held(addrof(stackMutex))
+//@   checks[C19] get(global(stackClass), local(name)) == result && (result == old(get(global(stackClass), local(name))) || fresh(result))
+//@ global queueClass guarded_by queueMutex
+//@ func Queue
+//@   props C19
+//@   syncwrites
 //@   nilok
 //@   nopanic
+//@   assumes !held(addrof(queueMutex))
+//@   modifies held(addrof(queueMutex)), mapof(global(queueClass))
 //@   ensures result != nil
-//@ assume func Catalog
+//@   checks[C19] !held(addrof(queueMutex))
+//@   checks[C19] get(global(queueClass), local(name)) == result && (result == old(get(global(queueClass), local(name))) || fresh(result))
+//@ global catalogClass guarded_by catalogMutex
+//@ func Catalog
+//@   props C19
+//@   syncwrites
 //@   nilok
 //@   nopanic
+//@   assumes !held(addrof(catalogMutex))
+//@   modifies held(addrof(catalogMutex)), mapof(global(catalogClass))
 //@   ensures result != nil
-//@ assume func Map
+//@   checks[C19] !held(addrof(catalogMutex))
+//@   checks[C19] get(global(catalogClass), local(name)) == result && (result == old(get(global(catalogClass), local(name))) || fresh(result))
+//@ global mapClass guarded_by mapMutex
+//@ func Map
+//@   props C19
+//@   syncwrites
 //@   nilok
 //@   nopanic
+//@   assumes !held(addrof(mapMutex))
+//@   modifies held(addrof(mapMutex)), mapof(global(mapClass))
 //@   ensures result != nil
-//@ assume func Association
+//@   checks[C19] !held(addrof(mapMutex))
+//@   checks[C19] get(global(mapClass), local(name)) == result && (result == old(get(global(mapClass), local(name))) || fresh(result))
+//@ global associationClass guarded_by associationMutex
+//@ func Association
+//@   props C19
+//@   syncwrites
 //@   nilok
 //@   nopanic
+//@   assumes !held(addrof(associationMutex))
+//@   modifies held(addrof(associationMutex)), mapof(global(associationClass))
 //@   ensures result != nil
+//@   checks[C19] !held(addrof(associationMutex))
+//@   checks[C19] get(global(associationClass), local(name)) == result && (result == old(get(global(associationClass), local(name))) || fresh(result))
 
 //@ iface ArrayClassLike.Notation
 //@   nopanic
